@@ -42,6 +42,8 @@ theorem goodL_ints (l : List Int) : goodL (l.map Val.int) = true := by
 theorem pne : PneSpec hostObs where
   cls := ⟨cls "PteraNameError", rfl, fun _ => rfl⟩
   notFatal := fun _ => rfl
+  pyCls := ⟨cls "NameError", rfl, fun _ => rfl⟩
+  pyNotFatal := fun _ => rfl
 
 theorem hostSpecObs : HostSpec hostObs where
   absent := hostSpec.absent
@@ -50,6 +52,7 @@ theorem hostSpecObs : HostSpec hostObs where
   resume := hostSpec.resume
   baseExc := hostSpec.baseExc
   nameErr := hostSpec.nameErr
+  pyNameErr := hostSpec.pyNameErr
   frame := hostSpec.frame
   globals := hostSpec.globals
   truthyBool := hostSpec.truthyBool
